@@ -121,7 +121,9 @@ class Service : public ola::rpc::TestService {
 struct Call {
   RpcController controller;
   EchoReply reply;
+  google::protobuf::Message *out;   // the reply object given to CallMethod (own, or one the caller reuses)
   unsigned k;
+  Call() : out(&reply), k(0) {}
 };
 
 void OnDone(Call *c) {
@@ -129,7 +131,7 @@ void OnDone(Call *c) {
   if (c->controller.Failed())
     g_ctx->done << "F:" << vh::hex(c->controller.ErrorText());
   else
-    g_ctx->done << "R:" << vh::hex(c->reply.SerializePartialAsString());
+    g_ctx->done << "R:" << vh::hex(c->out->SerializePartialAsString());
 }
 
 void OnChannelCloseA(ola::rpc::RpcSession*) { g_ctx->handler_runs[0]++; }
@@ -156,10 +158,16 @@ struct Caller {
   EchoRequest echo_request;
   ola::proto::PluginListRequest plugin_request;
   ola::proto::DmxData dmx;
+  ola::proto::UniverseRequest universe_request;
+  // reply objects the application keeps and hands to every GetDmx / GetUIDs call (optional and
+  // repeated fields: the reply delivered must be the decoded answer, not a blend with earlier ones)
+  ola::proto::DmxData shared_dmx;
+  ola::proto::UIDListReply shared_uids;
   Caller() : ncalls(0) {
     echo_request.set_data("x");
     dmx.set_universe(1);
     dmx.set_data("d");
+    universe_request.set_universe(1);
   }
   ~Caller() { for (size_t i = 0; i < calls.size(); i++) delete calls[i]; }
   bool Do(RpcChannel *channel, const string &code) {
@@ -182,6 +190,14 @@ struct Caller {
                           ola::NewSingleCallback(&OnDone, call));
     } else if (code == "f") {
       channel->CallMethod(ts->FindMethodByName("FailedEcho"), &call->controller, &echo_request, &call->reply,
+                          ola::NewSingleCallback(&OnDone, call));
+    } else if (code == "x") {
+      call->out = &shared_dmx;
+      channel->CallMethod(os->FindMethodByName("GetDmx"), &call->controller, &universe_request, call->out,
+                          ola::NewSingleCallback(&OnDone, call));
+    } else if (code == "u") {
+      call->out = &shared_uids;
+      channel->CallMethod(os->FindMethodByName("GetUIDs"), &call->controller, &universe_request, call->out,
                           ola::NewSingleCallback(&OnDone, call));
     } else if (code == "g") {
       // the channel parses whatever reply arrives into the message it is given; use an EchoReply so
@@ -334,10 +350,23 @@ string Handle(const string &payload) {
         channel.m_sequence.m_sequence_number = static_cast<uint32_t>(vh::num(rest));
         continue;
       }
+      if (c == 'w') {
+        // bytes arrive but the poller has not run yet
+        vector<uint8_t> bytes = vh::unhex(rest);
+        if (!bytes.empty() && write(pfd, bytes.data(), bytes.size()) != static_cast<ssize_t>(bytes.size()))
+          return "harness-error=write";
+        continue;
+      }
+      if (c == 'p') {
+        // the peer goes away: what it wrote stays readable, every later write to it fails
+        peer->Close();
+        jam = true;
+        continue;
+      }
       if (c == 'c') {
         vector<uint8_t> bytes = vh::unhex(rest);
         size_t off = 0;
-        while (off < bytes.size() && sock.ValidReadDescriptor()) {
+        while (off < bytes.size() && sock.ValidReadDescriptor() && peer->ValidReadDescriptor()) {
           ssize_t w = write(pfd, bytes.data() + off, bytes.size() - off);
           if (w > 0) off += w;
           else if (w < 0 && errno != EAGAIN && errno != EINTR) break;
